@@ -34,6 +34,9 @@ CONFIGS = [
 PATHS = [("self", "status", "existing"), ("thread", "stat", "existing"), ("root", "self", "existing-link"), ("self", "fd", "existing"),
          ("self", "nonexistent", "missing"), ("root", "nonexistent/x", "missing"), ("thread", "fd/9999", "missing"), ("self", "status/x", "notdir"),
          ("root", "no-such-pid-4199999/stat", "missing"),
+         # missing below the base, but the name exists directly below /proc: a retry on a fresh handle must stay below the same base
+         ("self", "uptime", "missing"), ("thread", "sys/kernel/ostype", "missing"), ("self", "1/status", "missing"),
+         ("thread", "self/status", "missing"), ("self", "thread-self", "missing"),
          ("root", "1/stat", "maybe-masked"), ("root", "stat", "maybe-masked"), ("root", "sys/kernel/ostype", "maybe-masked"), ("root", "uptime", "maybe-masked")]
 
 
